@@ -488,10 +488,20 @@ fn bulk_interpret(c: &BulkCase, sc: &Scratch, out: &mut CaseOut) -> Option<Failu
         2 => model.keys().take(c.remove_count as usize).copied().collect(),
         _ => c.removes.iter().map(|k| *k as u64).collect(),
     };
+    let mut tail_seen = tree.pages().page_zero().last_free_page;
     for (i, k) in victims.iter().enumerate() {
         call_begin(|| format!("bulk remove #{i} key {k}"));
         let r = tree.remove(&Key::U(*k));
         call_end();
+        // whenever a page was freed: the free list must be well formed right now (a stale link on the tail
+        // is overwritten by the next free)
+        let tail = tree.pages().page_zero().last_free_page;
+        if tail != tail_seen {
+            tail_seen = tail;
+            if let Some((cl, d)) = crate::audit::audit_free_list(&tree.pages()) {
+                fail!(&format!("audit.{cl}"), "after removal #{i} of key U{k}: {d}");
+            }
+        }
         match (r, model.contains_key(k)) {
             (Ok(()), true) => {
                 model.remove(k);
@@ -518,7 +528,7 @@ fn bulk_interpret(c: &BulkCase, sc: &Scratch, out: &mut CaseOut) -> Option<Failu
     None
 }
 
-fn gen_bulk(max_keys: usize, descending: bool) -> BoxedStrategy<BulkCase> {
+pub fn gen_bulk(max_keys: usize, descending: bool) -> BoxedStrategy<BulkCase> {
     (
         (prop_oneof![4 => Just(4096u32), 1 => Just(8192u32)], prop_oneof![Just(3u8), Just(4u8)], 1u8..4, Just(4000u32)).prop_map(|(page_size, min_keys, siblings, cache)| Cfg { page_size, cache, pool: 1, min_keys, siblings }),
         (0u8..3).prop_map(move |o| if o == 1 && !descending { 2 } else { o }),
